@@ -72,6 +72,157 @@ def _is_fresh_view(cls):
     return ok_value and ok_deriv
 
 
+def check_derivative_methods():
+    path = "qexpy/data/data.py"
+    tree = ast.parse(src(path))
+    classes = {c.name: c for c in tree.body if isinstance(c, ast.ClassDef)}
+
+    def ret_of(cname):
+        c = classes.get(cname)
+        f = next((m for m in (c.body if c else []) if isinstance(m, ast.FunctionDef)
+                  and m.name == "derivative"), None)
+        if f is None:
+            raise Unsupported("{}: {}.derivative missing".format(path, cname))
+        rets = [n for n in ast.walk(f) if isinstance(n, ast.Return)]
+        if len(rets) != 1:
+            raise Unsupported("{}: {}.derivative has {} return statements".format(
+                where(f, path), cname, len(rets)))
+        return f, rets[0].value
+
+    def is_id_test(t, other):
+        def idof(n, who):
+            return isinstance(n, ast.Attribute) and n.attr == "_id" and isinstance(n.value, ast.Name) \
+                and n.value.id == who
+        return (isinstance(t, ast.Compare) and len(t.ops) == 1 and isinstance(t.ops[0], ast.Eq)
+                and ((idof(t.left, "self") and idof(t.comparators[0], other))
+                     or (idof(t.left, other) and idof(t.comparators[0], "self"))))
+
+    f, r = ret_of("Constant")
+    if not (isinstance(r, ast.Constant) and r.value == 0):
+        raise Unsupported("{}: Constant.derivative does not return 0".format(where(f, path)))
+    f, r = ret_of("MeasuredValue")
+    other = f.args.args[1].arg
+    if not (isinstance(r, ast.IfExp) and is_id_test(r.test, other) and isinstance(r.body, ast.Constant)
+            and r.body.value == 1 and isinstance(r.orelse, ast.Constant) and r.orelse.value == 0):
+        raise Unsupported("{}: MeasuredValue.derivative is not `1 if self._id == other._id else 0` "
+                          "(identity of measurements)".format(where(f, path)))
+    f, r = ret_of("DerivedValue")
+    other = f.args.args[1].arg
+    ok = (isinstance(r, ast.IfExp) and is_id_test(r.test, other) and isinstance(r.body, ast.Constant)
+          and r.body.value == 1 and isinstance(r.orelse, ast.Call)
+          and isinstance(r.orelse.func, ast.Attribute) and r.orelse.func.attr == "differentiate"
+          and len(r.orelse.args) == 2 and isinstance(r.orelse.args[0], ast.Attribute)
+          and r.orelse.args[0].attr == "_formula" and isinstance(r.orelse.args[1], ast.Name)
+          and r.orelse.args[1].id == other)
+    if not ok:
+        raise Unsupported("{}: DerivedValue.derivative is not `1 if self._id == other._id else "
+                          "op.differentiate(self._formula, other)`".format(where(f, path)))
+
+
+class _Rename(ast.NodeTransformer):
+    """x.error -> s_x ; differentiate(<anything>, x) -> g_x  (so ExprTr sees plain names)"""
+
+    def visit_Attribute(self, node):
+        if isinstance(node.value, ast.Name) and node.attr == "error":
+            return ast.copy_location(ast.Name(id="s_" + node.value.id, ctx=ast.Load()), node)
+        return self.generic_visit(node)
+
+    def visit_Call(self, node):
+        if isinstance(node.func, ast.Name) and node.func.id == "differentiate" and \
+                len(node.args) == 2 and isinstance(node.args[1], ast.Name) and not node.keywords:
+            return ast.copy_location(ast.Name(id="g_" + node.args[1].id, ctx=ast.Load()), node)
+        return self.generic_visit(node)
+
+
+def gen_evaluator(tree, path, broken):
+    """DerivativeEvaluator.__evaluate / __find_cov_terms: the quadrature term, the covariance of a
+    pair, the yielded covariance term and its guard, how the sums are combined"""
+    out = {"quad": "(Num.ofNat 0)", "cov": "(Num.ofNat 0)", "yield": "(Num.ofNat 0)",
+           "combine": "q", "err": "x"}
+    try:
+        cls = next((c for c in tree.body if isinstance(c, ast.ClassDef)
+                    and c.name == "DerivativeEvaluator"), None)
+        if cls is None:
+            raise Unsupported("{}: class DerivativeEvaluator missing".format(path))
+        meth = {f.name: f for f in cls.body if isinstance(f, ast.FunctionDef)}
+        ev, cv = meth.get("__evaluate"), meth.get("__find_cov_terms")
+        if ev is None or cv is None:
+            raise Unsupported("{}: __evaluate / __find_cov_terms missing".format(path))
+        # quads = list(map(lambda x: <body>, sources))
+        lam = None
+        assigns = {}
+        for st in ast.walk(ev):
+            if isinstance(st, ast.Assign) and len(st.targets) == 1 and isinstance(st.targets[0], ast.Name):
+                assigns[st.targets[0].id] = st.value
+        q = assigns.get("quads")
+        for n in ast.walk(q) if q is not None else []:
+            if isinstance(n, ast.Lambda) and len(n.args.args) == 1:
+                lam = n
+        if lam is None:
+            raise Unsupported("{}: quads = list(map(lambda x: ..., sources)) not found".format(
+                where(ev, path)))
+        x = lam.args.args[0].arg
+        body = _Rename().visit(lam.body)
+        out["quad"] = ExprTr(path, names={"s_" + x: "s", "g_" + x: "g"}).tr(body)
+        rs = assigns.get("result_sums")
+        if not (isinstance(rs, ast.BinOp) and all(
+                isinstance(o, ast.Call) and isinstance(o.func, ast.Name) and o.func.id == "sum"
+                and len(o.args) == 1 and isinstance(o.args[0], ast.Name) for o in (rs.left, rs.right))):
+            raise Unsupported("{}: result_sums = sum(..) + sum(..) not found".format(where(ev, path)))
+        nm = {rs.left.args[0].id: "q", rs.right.args[0].id: "c"}
+        if set(nm) != {"quads", "covariance_terms"}:
+            raise Unsupported("{}: result_sums sums {}".format(where(ev, path), sorted(nm)))
+        out["combine"] = ExprTr(path, names={"__q": "q", "__c": "c"}).tr(
+            ast.BinOp(left=ast.Name(id="__q" if nm[rs.left.args[0].id] == "q" else "__c"), op=rs.op,
+                      right=ast.Name(id="__c" if nm[rs.right.args[0].id] == "c" else "__q")))
+        re_ = assigns.get("result_error")
+        if re_ is None:
+            raise Unsupported("{}: result_error not found".format(where(ev, path)))
+        out["err"] = ExprTr(path, names={"result_sums": "x"}).tr(re_)
+        # __find_cov_terms
+        loop = next((n for n in ast.walk(cv) if isinstance(n, ast.For)), None)
+        if loop is None or not (isinstance(loop.target, ast.Tuple) and len(loop.target.elts) == 2):
+            raise Unsupported("{}: pair loop not found".format(where(cv, path)))
+        it = loop.iter
+        if not (isinstance(it, ast.Call) and isinstance(it.func, ast.Attribute)
+                and it.func.attr == "combinations" and len(it.args) == 2
+                and isinstance(it.args[1], ast.Constant) and it.args[1].value == 2):
+            raise Unsupported("{}: pairs are not itertools.combinations(.., 2)".format(where(loop, path)))
+        v1, v2 = (e.id for e in loop.target.elts)
+        la = {}
+        guard = yld = None
+        for st in loop.body:
+            if isinstance(st, ast.Assign) and len(st.targets) == 1 and isinstance(st.targets[0], ast.Name):
+                la[st.targets[0].id] = st.value
+            elif isinstance(st, ast.If) and len(st.body) == 1 and isinstance(st.body[0], ast.Expr) \
+                    and isinstance(st.body[0].value, ast.Yield) and not st.orelse:
+                guard, yld = st.test, st.body[0].value.value
+            elif isinstance(st, ast.Expr) and isinstance(st.value, ast.Constant):
+                pass
+            else:
+                raise Unsupported("{}: statement in pair loop".format(where(st, path)))
+        corr = la.get("corr")
+        if not (isinstance(corr, ast.Call) and isinstance(corr.func, ast.Attribute)
+                and corr.func.attr == "get_correlation" and [getattr(a, "id", None) for a in corr.args]
+                in ([v1, v2], [v2, v1])):
+            raise Unsupported("{}: corr is not get_correlation(var1, var2)".format(where(cv, path)))
+        names = {"corr": "r", "s_" + v1: "s1", "s_" + v2: "s2", "g_" + v1: "g1", "g_" + v2: "g2"}
+        if "cov" not in la:
+            raise Unsupported("{}: cov not assigned".format(where(cv, path)))
+        out["cov"] = ExprTr(path, names=names).tr(_Rename().visit(la["cov"]))
+        if not (isinstance(guard, ast.Compare) and isinstance(guard.left, ast.Name)
+                and guard.left.id == "cov" and len(guard.ops) == 1 and isinstance(guard.ops[0], ast.NotEq)
+                and isinstance(guard.comparators[0], ast.Constant) and guard.comparators[0].value == 0):
+            raise Unsupported("{}: guard of the covariance term is not `cov != 0`".format(where(cv, path)))
+        names["cov"] = "cov"
+        out["yield"] = ExprTr(path, names=names).tr(_Rename().visit(yld))
+    except Unsupported as e:
+        broken.append(str(e))
+    except Exception as e:  # noqa: BLE001
+        broken.append("{}: DerivativeEvaluator: {}: {}".format(path, type(e).__name__, e))
+    return out
+
+
 def gen():
     path = "qexpy/data/operations.py"
     lits = literals()
@@ -147,6 +298,13 @@ def gen():
     except Unsupported as e:
         broken.append(str(e))
 
+    # ---- leaves and dispatch of derivative() (qexpy/data/data.py): identity by _id, constants 0,
+    # calculated quantities 1 w.r.t. themselves else the rule of their operator
+    try:
+        check_derivative_methods()
+    except Unsupported as e:
+        broken.append(str(e))
+
     # ---- degree variants
     deg = {}
     for name, inner in DEG.items():
@@ -164,6 +322,8 @@ def gen():
             deg[name] = ExprTr(path, names={args[0]: "x0"}).tr(body.args[0])
         except Unsupported as e:
             broken.append(str(e))
+
+    evl = gen_evaluator(tree, path, broken)
 
     def arm(tab, keys, default):
         return "\n".join("  | .{} => {}".format(k, tab.get(k, default)) for k in keys)
@@ -203,8 +363,25 @@ def degArg (o : DegOp) (x0 : α) : α :=
   match o with
 {deg}
 
+/-- DerivativeEvaluator.__evaluate: the quadrature term of one source (s = its uncertainty,
+    g = the derivative of the formula with respect to it) -/
+def quadTerm (s g : α) : α := {quad}
+
+/-- __find_cov_terms: covariance of a pair from its correlation r and the two uncertainties -/
+def covOf (r s1 s2 : α) : α := {cov}
+
+/-- __find_cov_terms: the term yielded for a pair when `cov != 0` -/
+def covYield (cov g1 g2 : α) : α := {yld}
+
+/-- result_sums from the sum of quadrature terms q and the sum of covariance terms c -/
+def combine (q c : α) : α := {combine}
+
+/-- result_error from result_sums -/
+def errOf (x : α) : α := {err}
+
 end QExPy.Gen
-""".format(path=path, broken=lean_strlist(broken),
+""".format(path=path, quad=evl["quad"], cov=evl["cov"], yld=evl["yield"],
+           combine=evl["combine"], err=evl["err"], broken=lean_strlist(broken),
            op1=arm(op1, OP1, "x0"), op2=arm(op2, OP2, "x0"),
            d1=arm(d1, OP1, zero), d2=arm(d2, OP2, zero),
            deg=arm(deg, list(DEG), "x0"))
